@@ -255,14 +255,27 @@ Definition astep (c : config) (a : astate) (o : op) (cls aflag : Z) : list astat
 (* ---- what callers may do (hypotheses of the theorems, checked on every case) --- *)
 (* releases at most what was reserved directly on that scope; sizes and
    priorities in range; the total of outstanding memory stays below 2^63 *)
-Definition total_mem (a : astate) : Z :=
-  fold_right (fun e acc => (if h_dead (snd e) then 0 else mem (h_own (snd e))) + acc) 0 (holders a).
+Definition has_holder (a : astate) (t : sid) : bool :=
+  match t with
+  | Conn _ | Stream _ | Span _ => match hget (holders a) t with Some _ => true | None => false end
+  | _ => true
+  end.
+Definition fresh (a : astate) (t : sid) : bool :=
+  match hget (holders a) t with Some _ => false | None => true end.
 
+(* releases at most what was reserved directly on that scope; priorities in
+   range; only handles that were obtained are used, new handles get new ids *)
 Definition caller_ok (a : astate) (o : op) : bool :=
   match o with
-  | OReserve t sz prio => (0 <=? prio) && (prio <=? 255) && (sz <? two63) && (total_mem a + Z.max sz 0 <? two63)
-  | ORelease t sz => (0 <=? sz) && (a_dead a t || (sz <=? mem (own_of a t)))
-  | _ => true
+  | OReserve t sz prio => (0 <=? prio) && (prio <=? 255) && (sz <? two63) && has_holder a t
+  | ORelease t sz => (0 <=? sz) && has_holder a t && (a_dead a t || (sz <=? mem (own_of a t)))
+  | OBeginSpan t k => has_holder a t && fresh a (Span k)
+  | ODone t => has_holder a t
+  | OOpenConn i _ _ _ => fresh a (Conn i)
+  | OOpenStream j _ _ => fresh a (Stream j)
+  | OSetPeer i _ => match nget (aconns a) i with Some _ => true | None => false end
+  | OSetProto j _ | OSetSvc j _ => match nget (astreams a) j with Some _ => true | None => false end
+  | OGC => true
   end.
 
 (* ---- observations ----------------------------------------------------------------- *)
@@ -278,6 +291,19 @@ Definition apply_delta (m : omap) (d : list entry) : omap :=
   fold_left (fun m e => oset m (e_sid e) e) d m.
 Definition ostat (m : omap) (t : sid) : stat :=
   match oget m t with Some e => e_stat e | None => stat0 end.
+
+(* memory an operation adds to scopes that already hold some: no scope's
+   memory may leave the int64 range (hypothesis of the theorems; with a
+   MaxInt64 limit the code does not check: DESIGN 9 item 13) *)
+Definition bump (m : omap) (o : op) : Z :=
+  match o with
+  | OReserve _ sz _ => Z.max sz 0
+  | OSetPeer i _ => mem (ostat m (Conn i))
+  | OSetProto j _ | OSetSvc j _ => mem (ostat m (Stream j))
+  | _ => 0
+  end.
+Definition no_overflow (m : omap) (o : op) : bool :=
+  forallb (fun e => mem (e_stat (snd e)) + bump m o <? two63) m.
 
 (* ---- limits as the property sees them ------------------------------------------------ *)
 (* a span is limited like the scope at the top of its owner chain *)
@@ -410,7 +436,7 @@ Definition refusal_justified (c : config) (a : astate) (m : omap) (o : op) : boo
 
 (* checks on the state after one operation; [a] is the abstract state after it,
    [m] the observed stats after it.  Result: [] or clause :: scope ++ details *)
-Definition check_after (c : config) (a : astate) (m : omap) (o : op) (cls : Z) : list Z :=
+Definition check_after (extra : bool) (c : config) (a : astate) (m : omap) (o : op) (cls : Z) : list Z :=
   let U := universe a m in
   match usage_mismatch a m U with
   | Some t => [CL_USAGE] ++ zsid t ++ zstat (usage_A a t) ++ zstat (ostat m t)
@@ -421,6 +447,7 @@ Definition check_after (c : config) (a : astate) (m : omap) (o : op) (cls : Z) :
           match first_some (fun t => if within (a_limit c a t) (ostat m t) then None else Some t) U with
           | Some t => [CL_LIMIT] ++ zsid t ++ zstat (ostat m t)
           | None =>
+              if negb extra then [] else
               let prio_bad :=
                 match o with
                 | OReserve t sz prio =>
@@ -464,7 +491,7 @@ Definition drop_holders (a : astate) (l : list sid) : astate :=
   fold_left kill l a.
 
 (* one monitored step: Some (a', m') or a diagnostic *)
-Definition mon_step (c : config) (a : astate) (m : omap) (o : op) (x : obs)
+Definition mon_step_gen (extra : bool) (c : config) (a : astate) (m : omap) (o : op) (x : obs)
   : (astate * omap) + list Z :=
   let m' := apply_delta m (o_delta x) in
   let cls := o_cls x in
@@ -476,9 +503,9 @@ Definition mon_step (c : config) (a : astate) (m : omap) (o : op) (x : obs)
       let pick := first_some (fun cand => match usage_mismatch cand m' (universe cand m') with
                                           | None => Some cand | Some _ => None end) (a1 :: rest) in
       let a' := match pick with Some cand => cand | None => a1 end in
-      match check_after c a' m' o cls with
+      match check_after extra c a' m' o cls with
       | [] =>
-          if (cls =? 1) && negb (refusal_justified c a m o)
+          if extra && (cls =? 1) && negb (refusal_justified c a m o)
           then inr [CL_UNJUST; cls]
           else inl (a', m')
       | d =>
@@ -507,15 +534,20 @@ Definition mon_step (c : config) (a : astate) (m : omap) (o : op) (x : obs)
       end
   end.
 
-Fixpoint mon_run (c : config) (a : astate) (m : omap) (i : Z) (tr : list (op * obs)) : list Z :=
+Definition mon_step := mon_step_gen true.
+
+(* [extra = false]: sums, signs, limits only; [true] adds the priority
+   threshold, the justification of limit refusals and the per-subnet cap *)
+Fixpoint mon_run_gen (extra : bool) (c : config) (a : astate) (m : omap) (i : Z) (tr : list (op * obs)) : list Z :=
   match tr with
   | [] => []
   | (o, x) :: r =>
-      match mon_step c a m o x with
-      | inl (a', m') => mon_run c a' m' (i + 1) r
+      match mon_step_gen extra c a m o x with
+      | inl (a', m') => mon_run_gen extra c a' m' (i + 1) r
       | inr d => ERR_PROPERTY :: i :: d
       end
   end.
+Definition mon_run := mon_run_gen true.
 
 (* the caller hypotheses along a trace: index of the first operation that
    breaks them *)
@@ -523,7 +555,7 @@ Fixpoint callers_run (c : config) (a : astate) (m : omap) (i : Z) (tr : list (op
   match tr with
   | [] => None
   | (o, x) :: r =>
-      if caller_ok a o then
+      if caller_ok a o && no_overflow m o then
         match mon_step c a m o x with
         | inl (a', m') => callers_run c a' m' (i + 1) r
         | inr _ => None
